@@ -2,18 +2,19 @@
 (* Generator of flattened struct inputs: members with child paths in every order (adversarial prefix names a / ab),
    struct-level ghosts addressed by child path; plus the algorithm model's prediction for each input. *)
 EXTENDS O2OFlatten, Json
-CONSTANTS MaxMembers, MaxGhosts, AllItems
+CONSTANTS MaxMembers, MaxGhosts, AllItems, TNs
 PathsDef == { <<>>, <<"a">>, <<"ab">>, <<"a","c">>, <<"a","c","d">>, <<"ab","e">> }
 GPathsDef == { <<"a">>, <<"a","c">>, <<"g">>, <<"h">>, <<"g","k">> }       \* ghosts in nodes members also use, and in nodes only ghosts use (several of them: C19)
 Items == {"none", "expr", "ren", "cded"}       \* cded: default #[child(zz)] written first + #[child(D| path)] dedicated to each counterpart
 VARIABLE in
-Init == \E gs \in UNION {[1..n -> GPathsDef] : n \in 0..MaxGhosts} : in = [ms |-> <<>>, gs |-> [j \in DOMAIN gs |-> [path |-> gs[j]]]]
+Init == \E gs \in UNION {[1..n -> GPathsDef] : n \in 0..MaxGhosts}, t \in TNs : in = [ms |-> <<>>, gs |-> [j \in DOMAIN gs |-> [path |-> gs[j]]], tn |-> t]
 Add(p, it) == Len(in.ms) < MaxMembers /\ (it = "cded" => p # <<>>) /\ in' = [in EXCEPT !.ms = Append(@, [path |-> p, it |-> it])]
 Next == \E p \in PathsDef, it \in Items : Add(p, it)
 Spec == Init /\ [][Next]_in
 \* items vary on every member only when AllItems; otherwise on the first member only (keeps the quick scope small)
 Canon == AllItems \/ \A i \in DOMAIN in.ms : i > 1 => in.ms[i].it = "none"
-Emit == (WellFormed(in) /\ Canon) => PrintT(<<"CASE", ToJson([in EXCEPT !.gs = in.gs] @@ [dup |-> DupConstruct(FieldsOf(in))])>>)
+\* the tuple-node variant of an input exists only when the node ab.e has a member
+Emit == (WellFormed(in) /\ Canon /\ (in.tn => \E i \in DOMAIN in.ms : in.ms[i].path = TupleNode)) => PrintT(<<"CASE", ToJson([in EXCEPT !.gs = in.gs] @@ [dup |-> DupConstruct(FieldsOf(in))])>>)
 \* design-level: every leaf of the counterpart tree is designated at most once; into writes every leaf of D
 NoClash == WellFormed(in) => \A a, b \in IntoExp(in) : a.leaf = b.leaf => a = b
 =============================================================================
